@@ -130,7 +130,10 @@ class BaseCheckInfo:  # pylint:disable=too-few-public-methods
 
     def to_check(self, model_cls: Type) -> Check:
         """Create a Check from metadata."""
-        name = self.check_kwargs.pop("name", None)
+        # the check info is shared by every model class inheriting the
+        # method: don't consume the explicit name
+        check_kwargs = dict(self.check_kwargs)
+        name = check_kwargs.pop("name", None)
         if not name:
             name = getattr(
                 self.check_fn, "__name__", self.check_fn.__class__.__name__
@@ -139,7 +142,7 @@ class BaseCheckInfo:  # pylint:disable=too-few-public-methods
         def _adapter(arg: Any, **kwargs) -> Union[bool, Iterable[bool]]:
             return self.check_fn(model_cls, arg, **kwargs)
 
-        return Check(_adapter, name=name, **self.check_kwargs)
+        return Check(_adapter, name=name, **check_kwargs)
 
 
 class BaseParserInfo:  # pylint:disable=too-few-public-methods
@@ -151,7 +154,8 @@ class BaseParserInfo:  # pylint:disable=too-few-public-methods
 
     def to_parser(self, model_cls: Type) -> Parser:
         """Create a Parser from metadata."""
-        name = self.parser_kwargs.pop("name", None)
+        parser_kwargs = dict(self.parser_kwargs)
+        name = parser_kwargs.pop("name", None)
         if not name:
             name = getattr(
                 self.parser_fn, "__name__", self.parser_fn.__class__.__name__
@@ -160,4 +164,4 @@ class BaseParserInfo:  # pylint:disable=too-few-public-methods
         def _adapter(arg: Any) -> Union[bool, Iterable[bool]]:
             return self.parser_fn(model_cls, arg)
 
-        return Parser(_adapter, name=name, **self.parser_kwargs)
+        return Parser(_adapter, name=name, **parser_kwargs)
